@@ -9,16 +9,16 @@ import "github.com/ElrondNetwork/elrond-vm-common/vsched"
 func pt(kind string, obj interface{}) { vsched.Point(vsched.Op{Kind: kind, Obj: obj}) }
 
 func StoreInt64(p *int64, v int64)          { pt("StoreInt64", p); *p = v }
-func LoadInt64(p *int64) int64             { pt("LoadInt64", p); return *p }
-func AddInt64(p *int64, d int64) int64     { pt("AddInt64", p); *p += d; return *p }
-func SwapInt64(p *int64, v int64) int64    { pt("SwapInt64", p); o := *p; *p = v; return o }
-func StoreUint32(p *uint32, v uint32)      { pt("StoreUint32", p); *p = v }
-func LoadUint32(p *uint32) uint32          { pt("LoadUint32", p); return *p }
+func LoadInt64(p *int64) int64              { pt("LoadInt64", p); return *p }
+func AddInt64(p *int64, d int64) int64      { pt("AddInt64", p); *p += d; return *p }
+func SwapInt64(p *int64, v int64) int64     { pt("SwapInt64", p); o := *p; *p = v; return o }
+func StoreUint32(p *uint32, v uint32)       { pt("StoreUint32", p); *p = v }
+func LoadUint32(p *uint32) uint32           { pt("LoadUint32", p); return *p }
 func SwapUint32(p *uint32, v uint32) uint32 { pt("SwapUint32", p); o := *p; *p = v; return o }
-func AddUint32(p *uint32, d uint32) uint32 { pt("AddUint32", p); *p += d; return *p }
-func StoreUint64(p *uint64, v uint64)      { pt("StoreUint64", p); *p = v }
-func LoadUint64(p *uint64) uint64          { pt("LoadUint64", p); return *p }
-func AddUint64(p *uint64, d uint64) uint64 { pt("AddUint64", p); *p += d; return *p }
+func AddUint32(p *uint32, d uint32) uint32  { pt("AddUint32", p); *p += d; return *p }
+func StoreUint64(p *uint64, v uint64)       { pt("StoreUint64", p); *p = v }
+func LoadUint64(p *uint64) uint64           { pt("LoadUint64", p); return *p }
+func AddUint64(p *uint64, d uint64) uint64  { pt("AddUint64", p); *p += d; return *p }
 func SwapUint64(p *uint64, v uint64) uint64 { pt("SwapUint64", p); o := *p; *p = v; return o }
 func CompareAndSwapInt64(p *int64, o, n int64) bool {
 	pt("CompareAndSwapInt64", p)
